@@ -34,6 +34,30 @@ theorem cb_eqPER : EqPER cbCalc where
     rw [← g2] at g8 ⊢
     split_ifs at h8 g8 ⊢ <;> simp_all
 
+theorem hot_eqPER : EqPER hotCalc where
+  symm a b h := by
+    simp only [hotCalc, HotRule.eq, Bool.and_eq_true, beq_iff_eq, Bool.or_eq_true, bne_iff_ne, ne_eq] at h ⊢
+    obtain ⟨⟨⟨⟨⟨⟨⟨⟨⟨h1, h2⟩, h3⟩, h4⟩, h5⟩, h6⟩, h7⟩, h8⟩, h9⟩, h10⟩ := h
+    refine ⟨⟨⟨⟨⟨⟨⟨⟨⟨h1.symm, h2.symm⟩, h3.symm⟩, h4.symm⟩, h5.symm⟩, h6.symm⟩, h7.symm⟩, h8.symm⟩, ?_⟩, ?_⟩
+    · rcases h9 with h9 | h9
+      · left; rw [← h8]; exact h9
+      · right; exact ⟨h9.1.symm, h9.2.symm⟩
+    · rw [← h3]
+      split_ifs at h10 ⊢ <;> simp_all
+  trans a b c h g := by
+    simp only [hotCalc, HotRule.eq, Bool.and_eq_true, beq_iff_eq, Bool.or_eq_true, bne_iff_ne, ne_eq] at h g ⊢
+    obtain ⟨⟨⟨⟨⟨⟨⟨⟨⟨h1, h2⟩, h3⟩, h4⟩, h5⟩, h6⟩, h7⟩, h8⟩, h9⟩, h10⟩ := h
+    obtain ⟨⟨⟨⟨⟨⟨⟨⟨⟨g1, g2⟩, g3⟩, g4⟩, g5⟩, g6⟩, g7⟩, g8⟩, g9⟩, g10⟩ := g
+    refine ⟨⟨⟨⟨⟨⟨⟨⟨⟨h1.trans g1, h2.trans g2⟩, h3.trans g3⟩, h4.trans g4⟩, h5.trans g5⟩, h6.trans g6⟩, h7.trans g7⟩,
+      h8.trans g8⟩, ?_⟩, ?_⟩
+    · rcases h9 with h9 | h9
+      · left; exact h9
+      · rcases g9 with g9 | g9
+        · left; rw [h8]; exact g9
+        · right; exact ⟨h9.1.trans g9.1, h9.2.trans g9.2⟩
+    · rw [← h3] at g10
+      split_ifs at h10 g10 ⊢ <;> simp_all
+
 theorem flow_eqPER : EqPER flowCalc where
   symm a b h := by
     simp only [flowCalc, FlowRule.eq, Bool.and_eq_true, beq_iff_eq] at h ⊢
@@ -144,8 +168,11 @@ theorem unchanged_keeps_controller_partial (K : Calc R S) (hK : EqPER K) (now : 
           -- the donor is not wanted by any later rule, in particular not by `r`
           have hd := hhead c0 (by simp)
           simp only [hc0, hall c0 (by simp), Bool.not_false, Bool.and_self, Bool.not_true, Bool.false_or,
-            List.all_eq_true, Bool.not_eq_eq_eq_not] at hd
-          have hp : K.eq c0.rule r = false := by simpa using hd r hrmem
+            List.all_eq_true] at hd
+          have hp : K.eq c0.rule r = false := by
+            have := hd r hrmem
+            simp only [Bool.and_eq_true, Bool.not_eq_true'] at this
+            exact this.1
           simp only [matching, List.filter_append, List.filter_cons, hp, Bool.false_eq_true, if_false] at hc ⊢
           exact hc
 
@@ -181,6 +208,16 @@ theorem steal_witness_flow :
     (build flowCalc 6 [⟨2,7,0,0,50,0,0,0,0,0,0⟩, ⟨1,7,1,0,10,0,0,0,10,3,0⟩]
         [⟨0, ⟨1,7,1,0,10,0,0,0,10,3,0⟩, { tokens := 77, lastFilled := 5000 }⟩] 1).map (fun c => (c.id, c.st.tokens))
       = [(1, 0), (2, 0)] := by decide
+
+/-- and in the hotspot manager, where *all* mutable state (per-value token and time counters) is the statistic: `A′`
+    (another threshold) listed first takes the counters of `A`, which starts from an empty cache -/
+theorem steal_witness_hot :
+    let a : HotRule := ⟨1, 7, 1, 0, 0, 2, 0, 0, 1, 0, 2, 99, 5⟩
+    let a' : HotRule := ⟨2, 7, 1, 0, 0, 50, 0, 0, 1, 0, 2, 99, 5⟩
+    let old : List (Ctl HotRule HotSt) := [⟨0, a, { times := [(4, 1000)], tokens := [(4, 0)] }⟩]
+    (build hotCalc 6 [a', a] old 1).map (fun c => (c.id, c.rule.id, c.st.tokens)) = [(1, 2, [(4, 0)]), (2, 1, [])]
+    ∧ (build hotCalc 6 [a, a'] old 1).map (fun c => (c.id, c.rule.id, c.st.tokens)) = [(0, 1, [(4, 0)]), (1, 2, [])] := by
+  decide
 
 /-! ### the finding `warmup-reload-resets` -/
 
@@ -393,6 +430,7 @@ theorem stat_reuse_keeps_statistics (K : Calc R S) (now : Nat) (new : List R) (o
 
 /-- what "the statistic" is for the three managers: the breaker's window counters, the flow controller's read statistic -/
 theorem cb_reuse_keeps_counters (r : CbRule) (st : CbSt) (now : Nat) : (cbCalc.reuse r st now).arr = st.arr := rfl
+theorem hot_reuse_keeps_counters (r : HotRule) (st : HotSt) (now : Nat) : hotCalc.reuse r st now = st := rfl
 theorem flow_reuse_keeps_stat (r : FlowRule) (st : FlowSt) (now : Nat) : (flowCalc.reuse r st now).stat = st.stat := rfl
 
 end Sentinel.C14
